@@ -284,6 +284,14 @@ def run(ctx, model=None):
     for order in (("differ_1", "dead_1", "bad_1", "differ_2"), ("dead_1", "differ_1", "bad_1"), ("differ_1", "bad_1", "dead_1")):
         pool_ = {"differ_1": differ, "differ_2": differ, "dead_1": dead, "bad_1": nb_bad}
         check_file(ctx, "flag_carry_" + "_".join(o[0] for o in order), render_game_file([(o, pool_[o]) for o in order]), model)
+    # a file that denotes no game at all: the (empty) report replaces whatever an earlier run left under that name
+    check_file(ctx, "empty_batch_1", "{}\n", model)
+    # labels and names that are JSON / Python keywords spelt as strings
+    kw = copy.deepcopy(nb)
+    kw["transition_list"][0] = [("true", 1), ("null", 2)]
+    kw2 = copy.deepcopy(nb)
+    kw2["transition_list"][0] = [("false", 1), ("None", 2)]
+    check_file(ctx, "keyword_labels_1", render_game_file([("null", kw), ("true", kw2), ("false_1", nb)]), model)
     # an ASCII-only file under the process environments of a cron job / container / CI runner: identical report
     optimized_cli(ctx, "env_1", render_game_file([("differ_1", differ), ("dead_1", dead), ("differ_2", differ)]), variants=CLI_ENVIRONMENTS)
     # the same file through `python -O` (asserts stripped, __debug__ False): identical report
